@@ -319,15 +319,17 @@ func (server *SugarDB) setExpiry(ctx context.Context, key string, expireAt time.
 func (server *SugarDB) deleteKey(ctx context.Context, key string) error {
 	database := ctx.Value("Database").(int)
 
-	// Deduct memory usage in tracker.
-	data := server.store[database][key]
-	mem, err := data.GetMem()
-	if err != nil {
-		return err
+	// Deduct memory usage in tracker. (A key that is no longer in the store - removed by a
+	// concurrent command, or lazily expired after the caller tested for it - was deducted then.)
+	if data, ok := server.store[database][key]; ok {
+		mem, err := data.GetMem()
+		if err != nil {
+			return err
+		}
+		server.memUsed -= mem
+		server.memUsed -= int64(unsafe.Sizeof(key))
+		server.memUsed -= int64(len(key))
 	}
-	server.memUsed -= mem
-	server.memUsed -= int64(unsafe.Sizeof(key))
-	server.memUsed -= int64(len(key))
 
 	// Delete the key from keyLocks and store.
 	delete(server.store[database], key)
